@@ -142,8 +142,10 @@ int main(int argc, char **argv) {
     const char *key = NULL;
     if (!is_hook && argc > 1) {
         const char *a1 = argv[1];
-        if (!strcmp(a1, "tag") && argc > 2 && !strcmp(argv[2], "--list"))
-            key = (argc > 3 && !strcmp(argv[3], "--merged")) ? "tag-merged" : "tag-list";
+        if (!strcmp(a1, "tag") && argc > 2 && !strcmp(argv[2], "--list")) {
+            key = "tag-list";
+            for (int i = 3; i < argc; i++) if (!strcmp(argv[i], "--merged")) key = "tag-merged";
+        }
         else if (!strcmp(a1, "tags")) key = "tag-list";
         else if (!strcmp(a1, "log")) key = "tag-merged";
         else if (!strcmp(a1, "config") || !strcmp(a1, "paths")) key = "remote";
